@@ -1617,6 +1617,17 @@ func (ex *Exec) idealMismatch(as, bs []*Term) bool {
 				return false
 			}
 		}
+		allConst := true
+		for _, y := range ys {
+			if !y.isConst {
+				allConst = false
+				break
+			}
+		}
+		if allConst {
+			// a hash/MAC output never equals a fixed constant string (negligible probability)
+			return true
+		}
 		anyDerived := false
 		aligned := true
 		var w0 *Term
